@@ -18,7 +18,7 @@ RULE = ("Inner applications = generated response recipes of every class (several
         "ASGI body events, repeated headers, odd reason phrases), plus apps raising before / after start or mid-body; wrapped in identity `middleware` stacks of depth "
         "1-3, identity `decorator` stacks of depth 1-3 and a middleware that edits exactly one header; GET/HEAD, Range for files; both interfaces. "
         "Non-trivial = inner app with repeated headers, >=2 body chunks, an empty body, or an error; distinct = (recipe, wrapper, depth, request, interface).")
-RULE += ' Also: 2-4 requests with bodies of different lengths in flight together through one wrapped app; bodies above 1 MiB, latin-1 Set-Cookie lines, headers handed over as a one-shot iterator, a middleware appending to an existing header under a mixed-case name, iterators without close() that raise after the first chunk, a repeated header whose first value is empty, one reused bytearray as ASGI body (the emulators snapshot it when written).'
+RULE += ' Also: 2-4 requests with bodies of different lengths in flight together through one wrapped app; bodies above 1 MiB, latin-1 Set-Cookie lines, headers handed over as a one-shot iterator, a middleware appending to an existing header under a mixed-case name, iterators without close() that raise after the first chunk, a repeated header whose first value is empty, one reused bytearray as ASGI body (the emulators snapshot it when written). Inner iterables that are list / tuple subclasses with close().'
 ASSUMPTIONS = [
     "headers are compared as multisets with case-folded names; reason phrases and body chunking are not compared",
     "Set-Cookie expiry dates are masked (two runs may straddle a second)",
@@ -369,11 +369,12 @@ def close_propagation(ctx, rng):
     k = rng.randrange(0, n)
     depth = rng.randrange(1, 4)
     wrapper = rng.choice(["middleware", "edit"])
-    case = {"inner": "raw WSGI app returning an iterator object with close()", "chunks": n, "server_closes_after": k, "wrapper": wrapper, "depth": depth}
+    shape = rng.choice(["closing", "closing", "closing-list", "closing-tuple"])
+    case = {"inner": "raw WSGI app returning an iterable object with close()", "iterable": shape, "chunks": n, "server_closes_after": k, "wrapper": wrapper, "depth": depth}
     closed = {}
     for variant in ("bare", "wrapped"):
         marks = {}
-        app = recipes.app_from(wsgi, {"app": "raw", "status": 200, "headers": [("Content-Type", "text/plain")], "chunks": [b"c%d" % i for i in range(n)], "shape": "closing"}, marks)
+        app = recipes.app_from(wsgi, {"app": "raw", "status": 200, "headers": [("Content-Type", "text/plain")], "chunks": [b"c%d" % i for i in range(n)], "shape": shape}, marks)
         if variant == "wrapped":
             m = {"middleware": identity_middleware, "edit": edit_middleware}[wrapper](wsgi, "wsgi")
             for _ in range(depth):
